@@ -163,6 +163,19 @@ def run(F, rep, tier, allfacts):
     rep.check(len(adds) == 1 and adds[0][1] in ("call:from(arg:i)", "arg:i") and "#1.0" in adds[0][0], "TAB-range-end", "key_range:start+i", "%s:%s" % (kf["file"], kf["line"]),
               "key_range must yield start.checked_add(i) for each i; found %s" % adds)
 
+    # ---- the cache lives exactly as long as one transaction
+    from fvlib.effects import FieldEffects, ResetCoverage
+    ife = FieldEffects(cg, r"^fuel_vm::interpreter::Interpreter$", r"fuel_vm::interpreter::Interpreter<")
+    irc = ResetCoverage(ife)
+    inn, inf = F.find(r"^fuel_vm::interpreter::initialization::.*::init_inner$", ["fuel_vm"], one=True)
+    rep.check("storage_slot_cache" in irc.must_reset(inn), "CACHE-coherence", "init_inner:clears-cache", "%s:%s" % (inf["file"], inf["line"]),
+              "the slot cache must be cleared when a transaction is initialised (stale entries would change reads of the next transaction)")
+    for m in cg.fns:
+        if m.startswith("fuel_vm::interpreter::") and "::diff::" not in m and m != inn:
+            rs = [x for x in irc.direct(m) if x[1] == "storage_slot_cache"]
+            rep.check(not rs, "CACHE-coherence", "no-mid-transaction-reset:" + short(m), "%s:%s" % (cg.fns[m]["file"], rs[0][3] if rs else 0),
+                      "the slot cache is reset outside init_inner (hot/cold gas then depends on when that happens): " + m) if rs else None
+
     # ---- handlers: id from internal_contract
     H = vm.handlers(F)
     helper_rx = r"interpreter::storage::.*::(storage_read_slot|storage_write_slot|storage_write_slot_from_memory|storage_clear_slot_range|storage_read_to_memory|storage_write_from_memory|storage_update_from_memory)$"
